@@ -2,22 +2,10 @@
 import json, os
 VERIF = os.path.dirname(os.path.dirname(os.path.abspath(__file__)))
 
-CBMC = 'bounded model checking of the real C translation units (goto-cc + cbmc 6.11, SAT), symbolic inputs, unwinding assertions, vacuity witness, native ASan/UBSan replay of counterexamples'
+_CBMC = 'bounded model checking of the real C translation units (goto-cc + cbmc 6.11, SAT), symbolic inputs, unwinding assertions, vacuity witness, native ASan/UBSan replay of counterexamples'
 
-# id -> dict(level_text, note, technique, design_ref); only properties listed here are claimed
-CLAIMED = {}
-NOT_APPLICABLE = {}
-
-
-def claim(pid, text, note, technique=CBMC, ref='DESIGN.md section 5', category='model_checking'):
-    CLAIMED[pid] = dict(text=text, note=note, technique=technique, ref=ref, category=category)
-
-
-def na(pid, reason):
-    NOT_APPLICABLE[pid] = reason
-
-
-from vf import manifest_table  # noqa: E402  (fills CLAIMED / NOT_APPLICABLE)
+from vf.registry import CLAIMED, NOT_APPLICABLE
+from vf import manifest_table  # noqa: F401  (fills the registry)
 
 
 def build():
